@@ -568,7 +568,12 @@ pub fn run_property(engine: &'static dyn Engine, tier: Tier) -> i32 {
             }
             if !confirmed {
                 eprintln!("note: violation {sig} of run {idx} did not reproduce on replay; not reported as a verdict");
-                unreproduced += 1;
+                // observations of a real process in real time (the --watch sessions, bursts of
+                // requests to a real server) are allowed not to repeat: an unrepeatable one is
+                // dropped, it does not take the verdict of the whole check with it
+                if !(sig.contains(":watch:") || sig.contains("-watch")) {
+                    unreproduced += 1;
+                }
                 continue;
             }
             let path = paths.root.join("replays").join(format!("{id}-{seed}-{idx}-{:08x}.json", rng::hash_str(sig) as u32));
